@@ -188,6 +188,65 @@ type zz02EmbMap struct {
 	X map[string]any `json:",embed"`
 }
 
+// A struct whose marshal order (depth-first: the embedded struct's members first) differs from
+// the breadth-first numbering of its fields, with members that are dropped at run time.
+type zz02In struct {
+	C int8 `json:"C,omitzero"`
+	D int8 `json:"D"`
+}
+
+type zz02Emb2 struct {
+	zz02In
+	B int8           `json:"B,omitzero"`
+	A int8           `json:"A"`
+	E int8           `json:"E,omitzero"`
+	X jsontext.Value `json:",embed"`
+}
+
+type zz02EmbMap2 struct {
+	zz02In
+	B int8           `json:"B,omitzero"`
+	A int8           `json:"A"`
+	E int8           `json:"E,omitzero"`
+	X map[string]any `json:",embed"`
+}
+
+// VerifC02Embedded2: as VerifC02Embedded for zz02Emb2 / zz02EmbMap2, the omitzero members
+// present or dropped as the solver chooses.
+func VerifC02Embedded2(tmpl string, viaMap bool) {
+	b := vrt.Template("n", tmpl)
+	in := zz02In{D: 4}
+	var bb, ee int8
+	if vrt.Bool("c") {
+		in.C = 3
+	}
+	if vrt.Bool("b") {
+		bb = 2
+	}
+	if vrt.Bool("e") {
+		ee = 5
+	}
+	var out []byte
+	var err error
+	if viaMap {
+		vrt.Assume(zzspec.ValidText(b, false, false, 10000))
+		tree, ok := zzspec.ParseAny(b)
+		m, isObj := tree.(map[string]any)
+		vrt.Assume(ok && isObj)
+		out, err = Marshal(&zz02EmbMap2{zz02In: in, B: bb, A: 1, E: ee, X: m})
+	} else {
+		out, err = Marshal(&zz02Emb2{zz02In: in, B: bb, A: 1, E: ee, X: jsontext.Value(b)})
+	}
+	vrt.Observe("errnil", err == nil)
+	if err != nil {
+		vrt.Cover("error")
+		return
+	}
+	vrt.Cover("success")
+	vrt.Observe("out", out)
+	vrt.Assert("C02/embedded/output-is-one-valid-value", zzspec.ValidText(out, true, true, 10000))
+}
+
 // VerifC02Embedded: members supplied through an embedded fallback (a raw jsontext.Value or a
 // map) are policed like everything else: if Marshal reports success the output is one valid
 // value under the effective options - no duplicate names (among the fallback's members, with
